@@ -433,6 +433,10 @@ impl Ctx {
         let mut t = Tape::new(tape);
         LAST_PANIC.with(|p| *p.borrow_mut() = None);
         let r = catch_unwind(AssertUnwindSafe(|| f(&mut t, &mut rec)));
+        // a generator that reads past the end of its tape only gets zeros from there on: make that visible
+        if tape.len() > 8 && t.pos() > tape.len() {
+            rec.labels.push("engine:tape-overrun".to_string());
+        }
         let mut harness_panic = None;
         match r {
             Ok(Ok(())) => {}
